@@ -228,6 +228,19 @@ pub fn ob_clone_eq<S: Src, const N: usize, const M: usize>(s: &mut S) -> Chk {
                     other.remove(&D::new(0xFFFF_0000 + j as u64));
                 }
                 ensure!(other == src && src == other, "== holds for equal contents whatever the history, capacity or hasher state");
+                // == is decided by the values' own ==, also when both operands are one and the same object:
+                // a value that does not equal itself (NaN) makes a map unequal to itself and to its clone
+                {
+                    let mut fm: HashMap<u64, f64, IdBuild> = HashMap::with_hasher(IdBuild { seed: 5 });
+                    let nan_at = if m.is_empty() || s.bool() { usize::MAX } else { s.below(m.len()) };
+                    for (i, kv) in m.iter().enumerate() {
+                        fm.insert(kv.0, if i == nan_at { f64::NAN } else { kv.1 as f64 });
+                    }
+                    let fm_ref = &fm;
+                    ensure!((*fm_ref == *fm_ref) == (nan_at == usize::MAX), "m == m exactly when every value equals itself");
+                    let fc = fm.clone();
+                    ensure!((fc == fm) == (nan_at == usize::MAX) && (fm == fc) == (nan_at == usize::MAX), "m == m.clone() exactly when every value equals itself");
+                }
                 if !m.is_empty() {
                     let i = s.below(m.len());
                     if s.bool() {
